@@ -103,12 +103,21 @@ def FExpr.eval : FExpr → Formula
 inductive VarSpec
   | num (field : Nat)
   | ind (field : Nat) (level : Rat)
+  | pw (field : Nat) (i : Nat)                 -- `natural_spline`: `ns_i(x)`, `x ** i`
+  | tr (field : Nat) (k : Rat) (order : Nat)   -- `natural_spline`: `(x - k) ** order * np.greater(x, k)`
 deriving DecidableEq, Repr
+
+/-- the numerical implementation of `ns_i`, `i ≤ order`: `x ** i` -/
+def nsPow (i : Nat) (x : Rat) : Rat := x ^ i
+/-- the numerical implementation of the knot functions: `(x - k) ** order * np.greater(x, k)` -/
+def nsTrunc (k : Rat) (order : Nat) (x : Rat) : Rat := (x - k) ^ order * (if k < x then 1 else 0)
 
 def valuation (specs : List VarSpec) (row : List Rat) (i : Nat) : Rat :=
   match specs[i]? with
   | some (.num j) => row.getD j 0
   | some (.ind k l) => if row.getD k 0 = l then 1 else 0
+  | some (.pw j i) => nsPow i (row.getD j 0)
+  | some (.tr j k o) => nsTrunc k o (row.getD j 0)
   | none => 0
 
 /-- column of one term -/
@@ -121,6 +130,29 @@ def design (specs : List VarSpec) (rows : List (List Rat)) (f : Formula) : List 
 
 /-- indicator columns of a factor on field `k` with the given levels -/
 def indicator (l x : Rat) : Rat := if x = l then 1 else 0
+
+/-! ## `Formula.subs`, `mean` / `coefs` / `params` / `getterms` -/
+
+/-- `term.subs(old, new)` for two Terms: every occurrence of variable `a` becomes `b` -/
+def Mono.subsVar (a b : Nat) (m : Mono) : Mono :=
+  ⟨m.coeff, (m.vars.map (fun v => if v = a then b else v)).foldr insertSorted []⟩
+
+/-- `Formula.subs(old, new)`: `self.__class__([term.subs(old, new) for term in self.terms])`
+    (term by term: nothing is merged) -/
+def Formula.subsVar (a b : Nat) (f : Formula) : Formula := ⟨f.terms.map (Mono.subsVar a b), false⟩
+
+/-- the Term a variable is built on (`ns_i(x)` contains the atom `x`) -/
+def baseVar (specs : List VarSpec) (v : Nat) : Nat :=
+  match specs[v]? with
+  | some (.pw j _) => j
+  | some (.tr j _ _) => j
+  | _ => v
+
+/-- `len(f.params)` (one `Beta` per term position), `len(f.coefs)` (one entry per
+    distinct term), `len(getterms(f.mean))` (distinct Term atoms) -/
+def counts (specs : List VarSpec) (f : Formula) : Nat × Nat × Nat :=
+  (f.terms.length, (dedup f.terms).length,
+   (dedup ((f.terms.flatMap (·.vars)).map (baseVar specs))).length)
 
 /-! ## Contrasts: the selector of the named terms -/
 
@@ -263,7 +295,36 @@ def arange (lo hi dt : Rat) : List Rat :=
   let n := ((hi - lo) / dt).ceil.toNat
   (List.range n).map (fun (k : Nat) => lo + (k : Rat) * dt)
 
+/-! ## `_eval_for` + `convolve_functions`: sampling inside the model -/
+
+/-- the functions of t the correspondence convolves: a polynomial (optionally
+    causal) or a `blocks` step function -/
+inductive TFn
+  | poly (causal : Bool) (cs : List Rat)
+  | blocks (bs : List Block)
+deriving Repr
+
+def TFn.eval : TFn → Rat → Rat
+  | .poly c cs, x => kernelVal c cs x
+  | .blocks bs, x => blocksVal bs x
+
+/-- `_eval_for(f, interval, dt)`: `f` on `np.arange(min, max, dt)` -/
+def evalFor (f : Rat → Rat) (a b dt : Rat) : List Rat :=
+  (arange (min a b) (max a b) dt).map f
+
+/-- `convolve_functions(f, g, f_interval, g_interval, dt, fill)` at time `t` -/
+def convolveFns (f g : Rat → Rat) (fa fb ga gb dt fill t : Rat) : Option Rat :=
+  convolveVal (evalFor f fa fb dt) (evalFor g ga gb dt) dt (min fa fb) (min ga gb) fill t
+
 /-! ## Line protocol -/
+
+def pTFn : P TFn := do
+  let t ← pTok
+  if t = "P" then do let c ← pBool; let cs ← pList pRat; pure (.poly c cs)
+  else if t = "B" then do
+    let bs ← pList (do let s ← pRat; let e ← pRat; let a ← pRat; pure (⟨s, e, a⟩ : Block))
+    pure (.blocks bs)
+  else failure
 
 def pMono : P Mono := do
   let c ← pRat; let vs ← pList pNat
@@ -292,6 +353,8 @@ def pVarSpec : P VarSpec := do
   let t ← pTok
   if t = "n" then do let j ← pNat; pure (.num j)
   else if t = "i" then do let k ← pNat; let l ← pRat; pure (.ind k l)
+  else if t = "p" then do let j ← pNat; let i ← pNat; pure (.pw j i)
+  else if t = "k" then do let j ← pNat; let k ← pRat; let o ← pNat; pure (.tr j k o)
   else failure
 
 def pEv : P Ev := do let t ← pRat; let a ← pRat; pure ⟨t, a⟩
@@ -321,6 +384,22 @@ def run : Toks → String
       | some (e, s, rows) =>
           let f := e.eval
           if f.terms.isEmpty then "error" else fmtCols (design s rows f)
+      | none => "bad-op"
+  | "subs" :: rest =>
+      match runP (do let a ← pNat; let b ← pNat; let e ← pFExpr rest.length; let s ← pList pVarSpec
+                     let rows ← pMat; pure (a, b, e, s, rows)) rest with
+      | some (a, b, e, s, rows) =>
+          -- `self.__class__(...)` of a Factor is `Factor(terms)`: TypeError (no `levels`)
+          if e.eval.isFactor then "error:typeError"
+          else
+            let f := e.eval.subsVar a b
+            if f.terms.isEmpty then "error" else fmtCols (design s rows f)
+      | none => "bad-op"
+  | "counts" :: rest =>
+      match runP (do let e ← pFExpr rest.length; let s ← pList pVarSpec; pure (e, s)) rest with
+      | some (e, s) =>
+          let c := counts s e.eval
+          toString c.1 ++ " " ++ toString c.2.1 ++ " " ++ toString c.2.2
       | none => "bad-op"
   | "terms" :: rest =>
       match runP (pFExpr rest.length) rest with
@@ -375,6 +454,19 @@ def run : Toks → String
           match convFxGx fv gv dt mf mg with
           | some (ts, ys) => fmtRats (q.map (interpVal fill ts ys))
           | none => "error:valueError"
+      | none => "bad-op"
+  | "convfn" :: rest =>
+      match runP (do let f ← pTFn; let g ← pTFn; let fa ← pRat; let fb ← pRat; let ga ← pRat; let gb ← pRat
+                     let dt ← pRat; let fill ← pRat; let q ← pList pRat
+                     pure (f, g, fa, fb, ga, gb, dt, fill, q)) rest with
+      | some (f, g, fa, fb, ga, gb, dt, fill, q) =>
+          if dt ≤ 0 then "bad-op"
+          else
+            let fv := evalFor f.eval fa fb dt
+            let gv := evalFor g.eval ga gb dt
+            match convFxGx fv gv dt (min fa fb) (min ga gb) with
+            | some (ts, ys) => fmtRats (q.map (interpVal fill ts ys))
+            | none => "error:valueError"
       | none => "bad-op"
   | "arange" :: rest =>
       match runP (do let a ← pRat; let b ← pRat; let d ← pRat; pure (a, b, d)) rest with
